@@ -139,7 +139,7 @@ def fetch_ams_ix_grx_weekly(**kwargs):
     remote = RemoteFileMetadata(filename="ams-ix-grx_weekly_2024-09-21.csv",
                                 url="https://figshare.com/ndownloader/files/49549881",
                                 checksum="e7b2afd06e4e5302ad9745cf6887ee73f76d09cce8ba10167b2152630e544058")
-    return load_csv_dataset_from_remote(remote=remote, dataset_filename="ams-ix-grx_monthly",
+    return load_csv_dataset_from_remote(remote=remote, dataset_filename="ams-ix-grx_weekly",
                                         dataset_folder=DATASET_FOLDER, validate_checksum=True, **kwargs)
 
 
